@@ -1,6 +1,7 @@
 (* Projection lemmas for the remaining shapes: maps traced as maps, tuples, enum variants.  Each says: the tracer of a child position is
    the result of tracing the child's values alone, in the order of the samples. *)
 From Verif Require Import Tracer Builder_proofs Null_proofs Struct_proofs Project_proofs.
+From Coq Require Import Bool.
 Require Import Lia.
 Local Open Scope nat_scope.
 
@@ -138,37 +139,109 @@ Proof. unfold maxlen. induction l1 as [|a r IH]; cbn [app map fold_right]; [refl
 Lemma maxlen_single l : maxlen [l] = length l.
 Proof. unfold maxlen. cbn [map fold_right]. lia. Qed.
 
-Definition TInv o d (S0 : list (list Value)) (F : list Tracer) : Prop :=
-  length F = maxlen S0 /\ forall i, trace_seq' o (S d) (col i S0) (Ok (TUnknown false)) = Ok (nth_tracer F i).
-
-Lemma tinv_step o d S0 F l F' : TInv o d S0 F -> tgo (trace o) d 0 l F = Ok F' -> TInv o d (S0 ++ [l]) F'.
+(* ---- tuples of different lengths: positions that a shorter tuple lacks are nullable ---- *)
+Lemma nth_adjust : forall n fs i,
+  nth_tracer (arity_adjust fs n) i =
+  if Nat.ltb i n && Nat.ltb i (length fs) then nth_tracer fs i
+  else if Nat.ltb i n || Nat.ltb i (length fs) then mark_nullable (nth_tracer fs i) else TUnknown false.
 Proof.
-  intros (Hlen & Hcol) H. destruct (tgo_spec o d l 0 F F' H) as (Hl' & _ & Hhi & Hin). split.
-  - rewrite Hl', maxlen_app, Hlen, maxlen_single. destruct l; cbn [length]; lia.
-  - intros i. rewrite col_app, fold_app, Hcol. unfold col at 1. cbn [flat_map]. rewrite app_nil_r.
-    destruct (nth_error l i) as [x|] eqn:E.
-    + cbn [trace_seq' fold_left bind]. apply (Hin i x E).
-    + cbn [trace_seq' fold_left]. rewrite Hhi; [reflexivity|]. apply nth_error_None in E. lia.
+  induction n as [|n IH]; intros fs i.
+  - cbn [arity_adjust Nat.ltb Nat.leb andb orb]. revert i. induction fs as [|f r IHr]; intros i; [destruct i; reflexivity|].
+    destruct i as [|i]; cbn [map nth_tracer length]; [reflexivity|]. rewrite IHr. change (S i <? S (length r)) with (i <? length r). reflexivity.
+  - destruct fs as [|f r]; cbn [arity_adjust length].
+    + destruct i as [|i]; cbn [nth_tracer]; [reflexivity|]. rewrite (IH [] i). cbn [length]. change (S i <? S n) with (i <? n).
+      replace (i <? 0) with false by (symmetry; apply Nat.ltb_ge; lia). rewrite Bool.andb_false_r, Bool.orb_false_r.
+      destruct (i <? n); [destruct i; reflexivity|reflexivity].
+    + destruct i as [|i]; cbn [nth_tracer]; [reflexivity|]. rewrite (IH r i). change (S i <? S n) with (i <? n). change (S i <? S (length r)) with (i <? length r). reflexivity.
+Qed.
+Lemma length_adjust : forall n fs, length (arity_adjust fs n) = Nat.max n (length fs).
+Proof.
+  induction n as [|n IH]; intros fs; [cbn [arity_adjust]; rewrite map_length; lia|].
+  destruct fs as [|f r]; cbn [arity_adjust length]; rewrite IH; cbn [length]; lia.
 Qed.
 
-Lemma tuples_from o d : forall ls S0 n F t, TInv o d S0 F ->
+Definition tmiss (i : nat) (ls : list (list Value)) : bool := existsb (fun l => Nat.leb (length l) i) ls.
+Definition tflag (i : nat) (ls : list (list Value)) : bool := Nat.ltb i (maxlen ls) && tmiss i ls.
+
+Lemma col_beyond i ls : maxlen ls <= i -> col i ls = [].
+Proof.
+  induction ls as [|l r IH]; intros H; [reflexivity|]. unfold maxlen in H. cbn [map fold_right] in H. fold (maxlen r) in H.
+  unfold col. cbn [flat_map]. fold (col i r). rewrite IH by lia. destruct (nth_error l i) eqn:E; [|reflexivity].
+  assert (i < length l) by (apply nth_error_Some; congruence). lia.
+Qed.
+Lemma tmiss_beyond i ls : ls <> [] -> maxlen ls <= i -> tmiss i ls = true.
+Proof.
+  destruct ls as [|l r]; [congruence|]. intros _ H. unfold maxlen in H. cbn [map fold_right] in H. unfold tmiss. cbn [existsb].
+  replace (length l <=? i) with true by (symmetry; apply Nat.leb_le; lia). reflexivity.
+Qed.
+Lemma tmiss_app i a c : tmiss i (a ++ c) = tmiss i a || tmiss i c.
+Proof. apply existsb_app. Qed.
+
+Lemma trace_mk o d v b t : trace o d v (mk b t) = (if b then omark (trace o d v t) else trace o d v t).
+Proof. destruct b; cbn [mk]; [apply trace_mark|reflexivity]. Qed.
+Lemma mk_true_mk b t : mark_nullable (mk b t) = mk true t.
+Proof. destruct b; cbn [mk]; [apply mark_idem|reflexivity]. Qed.
+
+Definition TInv o d (S0 : list (list Value)) (F : list Tracer) : Prop :=
+  length F = maxlen S0 /\
+  forall i, exists T, trace_seq' o (S d) (col i S0) (Ok (TUnknown false)) = Ok T /\ nth_tracer F i = mk (tflag i S0) T.
+
+Lemma tinv_step o d S0 F l F' : S0 <> [] -> TInv o d S0 F -> tgo (trace o) d 0 l (arity_adjust F (length l)) = Ok F' -> TInv o d (S0 ++ [l]) F'.
+Proof.
+  intros Hne (Hlen & Hcol) H. destruct (tgo_spec o d l 0 _ F' H) as (Hl' & _ & Hhi & Hin). split.
+  - rewrite Hl', length_adjust, maxlen_app, Hlen, maxlen_single. destruct l; cbn [length]; lia.
+  - intros i. destruct (Hcol i) as (T & RT & ET). rewrite col_app, fold_app, RT. unfold col at 1. cbn [flat_map]. rewrite app_nil_r.
+    assert (Hfl : tflag i (S0 ++ [l]) = (Nat.ltb i (Nat.max (maxlen S0) (length l))) && (tmiss i S0 || Nat.leb (length l) i)).
+    { unfold tflag. rewrite maxlen_app, maxlen_single, tmiss_app. unfold tmiss at 2. cbn [existsb]. rewrite Bool.orb_false_r. reflexivity. }
+    pose proof (nth_adjust (length l) F i) as Ha. rewrite Hlen in Ha. rewrite ET in Ha.
+    destruct (nth_error l i) as [x|] eqn:Ex.
+    + assert (Hil : i < length l) by (apply nth_error_Some; congruence).
+      pose proof (Hin i x Ex) as Hx. cbn [Nat.add] in Hx. rewrite Ha in Hx.
+      replace (i <? length l) with true in Hx by (symmetry; apply Nat.ltb_lt; exact Hil). cbn [andb orb] in Hx.
+      cbn [trace_seq' fold_left bind].
+      destruct (Nat.ltb_spec i (maxlen S0)) as [HiM|HiM].
+      * (* the position exists already *)
+        rewrite trace_mk in Hx. rewrite Hfl. replace (i <? Nat.max (maxlen S0) (length l)) with true by (symmetry; apply Nat.ltb_lt; lia).
+        replace (length l <=? i) with false by (symmetry; apply Nat.leb_gt; exact Hil). rewrite Bool.orb_false_r. cbn [andb].
+        unfold tflag in Hx. replace (i <? maxlen S0) with true in Hx by (symmetry; apply Nat.ltb_lt; exact HiM). cbn [andb] in Hx.
+        destruct (tmiss i S0); [|exists (nth_tracer F' i); split; [exact Hx|reflexivity]].
+        destruct (trace o (S d) x T) as [T'| |p]; cbn [omark] in Hx; try discriminate. injection Hx as Hx. exists T'. split; [reflexivity|symmetry; exact Hx].
+      * (* a new position: every earlier tuple lacks it *)
+        assert (ET0 : T = TUnknown false) by (rewrite (col_beyond i S0 HiM) in RT; cbn in RT; congruence). subst T.
+        unfold tflag in Hx. replace (i <? maxlen S0) with false in Hx by (symmetry; apply Nat.ltb_ge; exact HiM). cbn [andb mk] in Hx.
+        change (mark_nullable (TUnknown false)) with (mk true (TUnknown false)) in Hx. rewrite trace_mk in Hx.
+        rewrite Hfl. replace (i <? Nat.max (maxlen S0) (length l)) with true by (symmetry; apply Nat.ltb_lt; lia). rewrite (tmiss_beyond i S0 Hne HiM). cbn [andb orb].
+        destruct (trace o (S d) x (TUnknown false)) as [T'| |p]; cbn [omark] in Hx; try discriminate. injection Hx as Hx. exists T'. split; [reflexivity|symmetry; exact Hx].
+    + assert (Hil : length l <= i) by (apply nth_error_None; exact Ex).
+      cbn [trace_seq' fold_left]. exists T. split; [reflexivity|]. rewrite (Hhi i ltac:(lia)), Ha, Hfl.
+      replace (i <? length l) with false by (symmetry; apply Nat.ltb_ge; exact Hil). replace (length l <=? i) with true by (symmetry; apply Nat.leb_le; exact Hil).
+      cbn [andb orb]. rewrite Bool.orb_true_r, Bool.andb_true_r.
+      destruct (Nat.ltb_spec i (maxlen S0)) as [HiM|HiM].
+      * replace (i <? Nat.max (maxlen S0) (length l)) with true by (symmetry; apply Nat.ltb_lt; lia). apply mk_true_mk.
+      * replace (i <? Nat.max (maxlen S0) (length l)) with false by (symmetry; apply Nat.ltb_ge; lia).
+        assert (ET0 : T = TUnknown false) by (rewrite (col_beyond i S0 HiM) in RT; cbn in RT; congruence). subst T. reflexivity.
+Qed.
+
+Lemma tuples_from o d : forall ls S0 n F t, S0 <> [] -> TInv o d S0 F ->
   trace_seq' o d (map VTuple ls) (Ok (TTuple n F)) = Ok t -> exists F', t = TTuple n F' /\ TInv o d (S0 ++ ls) F'.
 Proof.
-  induction ls as [|l r IH]; intros S0 n F t Hinv H.
+  induction ls as [|l r IH]; intros S0 n F t Hne Hinv H.
   - cbn in H. injection H as <-. exists F. rewrite app_nil_r. split; [reflexivity|exact Hinv].
   - cbn [map] in H. rewrite tsc, trace_tuple_eq in H. unfold ensure_tuple in H.
     destruct (Nat.leb max_depth d); [cbn [bind] in H; rewrite fold_err in H; discriminate|]. cbn [upgradable bind] in H.
-    destruct (tgo (trace o) d 0 l F) as [F1| |p] eqn:E; cbn [bind] in H; [|rewrite fold_err in H; discriminate|rewrite fold_panic in H; discriminate].
-    destruct (IH (S0 ++ [l]) n F1 t (tinv_step o d S0 F l F1 Hinv E) H) as (F' & -> & Hinv'). exists F'. split; [reflexivity|].
+    destruct (tgo (trace o) d 0 l (arity_adjust F (length l))) as [F1| |p] eqn:E; cbn [bind] in H; [|rewrite fold_err in H; discriminate|rewrite fold_panic in H; discriminate].
+    destruct (IH (S0 ++ [l]) n F1 t ltac:(intros E0; apply app_eq_nil in E0 as [E0 _]; contradiction) (tinv_step o d S0 F l F1 Hne Hinv E) H) as (F' & -> & Hinv'). exists F'. split; [reflexivity|].
     rewrite <- app_assoc in Hinv'. exact Hinv'.
 Qed.
 
 Lemma nth_tracer_repeat k i : nth_tracer (repeat (TUnknown false) k) i = TUnknown false.
 Proof. revert i. induction k as [|k IH]; intros i; [destruct i; reflexivity|]. destruct i; cbn [repeat nth_tracer]; [reflexivity|apply IH]. Qed.
 
+(* the tracer of position i is the trace of the i-th elements alone, nullable iff some tuple is too short to have one *)
 Theorem tuple_projection o d ls n0 t : ls <> [] ->
   trace_seq' o d (map VTuple ls) (Ok (TUnknown n0)) = Ok t ->
-  exists F, t = TTuple n0 F /\ length F = maxlen ls /\ forall i, trace_seq' o (S d) (col i ls) (Ok (TUnknown false)) = Ok (nth_tracer F i).
+  exists F, t = TTuple n0 F /\ length F = maxlen ls /\
+            forall i, exists T, trace_seq' o (S d) (col i ls) (Ok (TUnknown false)) = Ok T /\ nth_tracer F i = mk (tflag i ls) T.
 Proof.
   intros Hne H. destruct ls as [|l r]; [congruence|]. cbn [map] in H. rewrite tsc, trace_tuple_eq in H. unfold ensure_tuple in H.
   destruct (Nat.leb max_depth d); [cbn [bind] in H; rewrite fold_err in H; discriminate|]. cbn [upgradable t_nullable bind] in H.
@@ -176,10 +249,14 @@ Proof.
   assert (Hinv1 : TInv o d [l] F1).
   { destruct (tgo_spec o d l 0 _ F1 E) as (Hl' & _ & Hhi & Hin). split.
     - rewrite Hl', repeat_length, maxlen_single. destruct l; cbn [length]; lia.
-    - intros i. unfold col. cbn [flat_map]. rewrite app_nil_r. destruct (nth_error l i) as [x|] eqn:Ex.
-      + cbn [trace_seq' fold_left bind]. pose proof (Hin i x Ex) as Hx. cbn [Nat.add] in Hx. rewrite nth_tracer_repeat in Hx. exact Hx.
-      + cbn [trace_seq' fold_left]. rewrite Hhi, nth_tracer_repeat; [reflexivity|]. apply nth_error_None in Ex. lia. }
-  destruct (tuples_from o d r [l] n0 F1 t Hinv1 H) as (F' & -> & Hlen & Hcol). exists F'. split; [reflexivity|]. split; assumption.
+    - intros i. unfold col. cbn [flat_map]. rewrite app_nil_r.
+      assert (Hf : tflag i [l] = false).
+      { unfold tflag, tmiss. rewrite maxlen_single. cbn [existsb]. rewrite Bool.orb_false_r. destruct (Nat.ltb_spec i (length l)); [|reflexivity].
+        replace (length l <=? i) with false by (symmetry; apply Nat.leb_gt; assumption). reflexivity. }
+      rewrite Hf. cbn [mk]. destruct (nth_error l i) as [x|] eqn:Ex.
+      + cbn [trace_seq' fold_left bind]. pose proof (Hin i x Ex) as Hx. cbn [Nat.add] in Hx. rewrite nth_tracer_repeat in Hx. exists (nth_tracer F1 i). split; [exact Hx|reflexivity].
+      + cbn [trace_seq' fold_left]. exists (TUnknown false). split; [reflexivity|]. rewrite Hhi, nth_tracer_repeat; [reflexivity|]. apply nth_error_None in Ex. lia. }
+  destruct (tuples_from o d r [l] n0 F1 t ltac:(discriminate) Hinv1 H) as (F' & -> & Hlen & Hcol). exists F'. split; [reflexivity|]. split; assumption.
 Qed.
 
 Lemma tuple_structs o d : forall ls r, trace_seq' o d (map VTupleStruct ls) r = trace_seq' o d (map VTuple ls) r.
